@@ -80,7 +80,8 @@ Rec(step) == /\ hist' = IF Walk THEN Append(hist, step) ELSE <<step>>
 IsInit(l) == l[1] \in {"expdl", "expul", "segdl", "blkdl", "blkul"}
 \* while the reference is out of sync it stays idle; an object that a download initiate
 \* names may be written by the implementation: its content becomes unknown
-Blind(l) == IF l[1] \in {"expdl", "segdl", "blkdl"} /\ l[2] <= Len(Dict) THEN [d EXCEPT ![l[2]] = Unknown(@)] ELSE d
+\* (also for upload initiates: the implementation may take a later download segment for the object it opened)
+Blind(l) == IF IsInit(l) /\ l[2] <= Len(Dict) THEN [d EXCEPT ![l[2]] = Unknown(@)] ELSE d
 \* C04 on the reference: number of responses of a determined step
 RespOK(s0, r, f) ==
   r.open # "det" \/
@@ -133,7 +134,7 @@ RunLetters(ss, dd, t, ls, synced, acc) ==
            sy == IF r.open = "abort" THEN TRUE ELSE IF r.open = "free" THEN FALSE ELSE synced
            t1 == IF IsInit(l) THEN (t + 1) % 3 ELSE t
        IN IF ~synced /\ l[1] # "abort"
-          THEN RunLetters(Idle, IF l[1] \in {"expdl", "segdl", "blkdl"} /\ l[2] <= Len(dd) THEN [dd EXCEPT ![l[2]] = Unknown(@)] ELSE dd,
+          THEN RunLetters(Idle, IF IsInit(l) /\ l[2] <= Len(dd) THEN [dd EXCEPT ![l[2]] = Unknown(@)] ELSE dd,
                           t1, Tail(ls), FALSE, Append(acc, StepRec(<<"rx", RxId, 8>> \o f, <<>>)))
           ELSE RunLetters(r.s, r.d, t1, Tail(ls), sy, Append(acc, RxStep(f, ss, dd, r, synced)))
 \* NMT reset communication (C05: "the same holds after an NMT reset communication"): the
